@@ -135,7 +135,7 @@ theorem cacheWriteTail_spec (T : CTab) (raw : Raw) (h : Nat → Int) (c : Nat) (
     have hok1 := hi2.ents c kc1 hkc2 hd
     refine ⟨(), _, rfl, hi2.updCache c kc1 { kc1 with ents := assocSet kc1.ents m' e } hkc2 hd rfl ?_ hh rfl rfl rfl,
       { kc1 with ents := assocSet kc1.ents m' e }, ?_, assocGet_assocSet_self _ _ _⟩
-    · refine ⟨?_, assocSet_keys_nodup _ _ hok1.nodup, hok1.latest⟩
+    · refine ⟨?_, assocSet_keys_nodup _ _ hok1.nodup, hok1.latest, fun hn => by rw [hmode] at hn; cases hn⟩
       intro m2 e2 hme
       rcases mem_assocSet hme with ⟨rfl, rfl⟩ | ⟨hme', _⟩
       · exact hk2
@@ -215,11 +215,436 @@ theorem cacheWrite_spec (T : CTab) (raw : Raw) (h : Nat → Int) (c : Nat) (m : 
     let kc1 : KeyCache := { kc with latest := assocSet kc.latest m.kid (writeKey m k.created) }
     have hok := hi.ents c kc hkc hd
     have hi1 : RIc T raw h { w with caches := setAt w.caches c fun _ => kc1 } := by
-      refine hi.updCache c kc kc1 hkc hd rfl ⟨hok.entKey, hok.nodup, ?_⟩ (fun o => rfl) rfl rfl rfl
+      refine hi.updCache c kc kc1 hkc hd rfl ⟨hok.entKey, hok.nodup, ?_, hok.nev⟩ (fun o => rfl) rfl rfl rfl
       intro kid l hl
       rcases mem_assocSet hl with ⟨rfl, rfl⟩ | ⟨hl', _⟩
       · unfold writeKey; split <;> rfl
       · exact hok.latest kid l hl'
     exact cacheWriteTail_spec T raw h c _ e kc1 hd hmode hpos _
       ⟨hi1, by show (setAt w.caches c _)[c]? = _; rw [setAt_getElem?]; simp [hkc, kc1], k, hk, hcr'⟩
+
+
+theorem readKey_eq_writeKey {keys : List KeyObj} {kc : KeyCache} {m : KeyMeta} {e : CEntry} {ke : KeyObj}
+    (hok : CacheOK keys kc) (hl : assocGet kc.ents (readKey kc m) = some e) (hk : keys[e.obj]? = some ke) :
+    readKey kc m = writeKey m ke.created := by
+  obtain ⟨k', hk', hc'⟩ := hok.entKey _ _ (assocGet_mem hl)
+  rw [hk] at hk'; cases hk'
+  unfold readKey writeKey at *
+  by_cases h0 : m.created = 0
+  · simp only [h0, if_true] at hc' ⊢
+    cases hg : getLatestMeta kc m.kid with
+    | none =>
+      rw [hg] at hc'
+      simp only [Option.getD_none] at hc' ⊢
+      cases m; simp_all
+    | some l =>
+      rw [hg] at hc'
+      simp only [Option.getD_some] at hc' ⊢
+      have := hok.latest _ _ (assocGet_mem hg)
+      cases l; simp_all
+  · simp [h0]
+
+/-- what the caches need from a key loader: on success a fresh raw key object (created as asked
+when a creation stamp was asked for), on failure nothing is left behind. -/
+def LoaderOK (T : CTab) (loader : KeyMeta → M Nat) (m : KeyMeta) : Prop :=
+  ∀ H, Spec (RI T .none H) (loader m)
+    (fun o w => RI T (.obj o) H w ∧ (m.created ≠ 0 → ∃ k, w.keys[o]? = some k ∧ k.created = m.created))
+    (RI T .none H)
+
+theorem RIc.cache_in_range {T : CTab} {raw : Raw} {h : Nat → Int} {w : World} (hi : RIc T raw h w) {c : Nat}
+    (hm : T.mode c = .simple) : ∃ kc, w.caches[c]? = some kc ∧ kc.mode = .simple := by
+  have := hi.mode c
+  rw [hm] at this
+  cases hc : w.caches[c]? with
+  | none =>
+    simp only [List.getD_eq_getElem?_getD, hc, Option.getD_none] at this
+    cases this
+  | some kc =>
+    simp only [List.getD_eq_getElem?_getD, hc, Option.getD_some] at this
+    exact ⟨kc, rfl, this⟩
+
+/-- wrap the freshly loaded raw key and put it into open cache `c`: the wrapper's first reference
+becomes the cache's; an entry it replaces is released. -/
+theorem wrapWrite_spec (T : CTab) (H : List Nat) (c : Nat) (m : KeyMeta) (k : Nat) (la : Int)
+    (hd : T.dead c = false) (hmode : T.mode c = .simple) :
+    Spec (fun w => RI T (.obj k) H w ∧ (m.created ≠ 0 → ∃ ko, w.keys[k]? = some ko ∧ ko.created = m.created))
+      (keyWrap k >>= fun _ => cacheWrite c m { loadedAt := la, obj := k })
+      (fun _ w => RI T .none H w ∧ 0 < entCount T.dead w.caches k) (fun _ => False) := by
+  apply Spec.intro_ok
+  rintro w ⟨hi, hcr⟩
+  obtain ⟨kc, hkc, hkcm⟩ := RIc.cache_in_range hi hmode
+  have hklt := hi.rawObj k rfl
+  have hk : w.keys[k]? = some w.keys[k] := List.getElem?_eq_getElem hklt
+  simp only [bind_run]
+  have hw1 := (keyWrap_spec T H k).run_ok hi (rfl : keyWrap k w = (.ok (), _))
+  simp only [show keyWrap k w = (.ok (), { w with keys := setAt w.keys k fun x => { x with refs := 1 } }) from rfl]
+  obtain ⟨hi1, hent⟩ := hw1
+  have hk1 : (setAt w.keys k fun x => { x with refs := 1 })[k]? = some { w.keys[k] with refs := 1 } := by
+    rw [setAt_getElem?]; simp [hk]
+  have hsp := cacheWrite_spec T .none (hcount (k :: H)) c m { loadedAt := la, obj := k } kc
+    { w.keys[k] with refs := 1 } hd hkcm (hcount_nonneg _)
+    (by intro h0; obtain ⟨k', hk', hc'⟩ := hcr h0; rw [hk] at hk'; cases hk'; exact hc')
+    _ ⟨hi1, hkc, hk1⟩
+  cases hr : cacheWrite c m { loadedAt := la, obj := k } { w with keys := setAt w.keys k fun x => { x with refs := 1 } } with
+  | mk r w3 =>
+    rw [hr] at hsp
+    cases r with
+    | error e => exact hsp.elim
+    | ok u =>
+      obtain ⟨hi3, kc', hkc', hget⟩ := hsp
+      refine ⟨(), w3, rfl, ?_, ?_⟩
+      · have hwh : writeHolds (hcount (k :: H)) kc (writeKey m (w.keys[k]).created) { loadedAt := la, obj := k } = hcount H := by
+          have hno : ∀ old, assocGet kc.ents (writeKey m (w.keys[k]).created) = some old → old.obj ≠ k := by
+            intro old hold heq
+            have : 0 < entCount T.dead w.caches k :=
+              entCount_pos_iff.2 ⟨c, kc, hkc, hd, List.mem_map.2 ⟨(_, old), assocGet_mem hold, heq⟩⟩
+            simp only at hent
+            omega
+          unfold writeHolds
+          rw [hcount_cons, hadd_hadd_cancel]
+          cases hg : assocGet kc.ents (writeKey m (w.keys[k]).created) with
+          | none => rfl
+          | some old => simp only [hno old hg, if_false]
+        simp only at hi3
+        rw [hwh] at hi3
+        exact hi3
+      · exact entCount_pos_iff.2 ⟨c, kc', hkc', hd, List.mem_map.2 ⟨(_, _), assocGet_mem hget, rfl⟩⟩
+
+theorem cacheLoad_spec (T : CTab) (H : List Nat) (c : Nat) (m : KeyMeta) (loader : KeyMeta → M Nat)
+    (hd : T.dead c = false) (hmode : T.mode c = .simple) (hl : LoaderOK T loader m) :
+    Spec (RI T .none H) (cacheLoad c m loader)
+      (fun o w => RI T .none H w ∧ 0 < entCount T.dead w.caches o) (RI T .none H) := by
+  unfold cacheLoad
+  refine Spec.bind (hl H) (fun _ h => h) ?_
+  intro k
+  apply Spec.intro_ok
+  rintro w ⟨hi, hcr⟩
+  obtain ⟨kc, hkc, hkcm⟩ := RIc.cache_in_range hi hmode
+  have hgd : w.caches.getD c default = kc := getD_eq_of_getElem? hkc
+  have hnb : (w.caches.getD c default).mode ≠ .bounded := by rw [hgd, hkcm]; decide
+  have hklt := hi.rawObj k rfl
+  have hk : w.keys[k]? = some w.keys[k] := List.getElem?_eq_getElem hklt
+  simp only [bind_run, keyObj, cacheRead_run w c m hnb, hgd]
+  have hok := hi.ents c kc hkc hd
+  -- caching the freshly loaded key
+  have newBranch : ∃ a w', (do
+        let w ← get
+        keyWrap k
+        cacheWrite c m { loadedAt := w.now, obj := k }
+        pure k : M Nat) w = (.ok a, w') ∧ RI T .none H w' ∧ 0 < entCount T.dead w'.caches a := by
+    have hsp := wrapWrite_spec T H c m k w.now hd hmode w ⟨hi, hcr⟩
+    simp only [bind_run, get_run] at hsp ⊢
+    cases hr : keyWrap k w with
+    | mk r1 w1 =>
+      rw [hr] at hsp
+      cases r1 with
+      | error e => exact hsp.elim
+      | ok u =>
+        simp only at hsp ⊢
+        cases hr2 : cacheWrite c m { loadedAt := w.now, obj := k } w1 with
+        | mk r2 w2 =>
+          rw [hr2] at hsp
+          cases r2 with
+          | error e => exact hsp.elim
+          | ok u2 => exact ⟨k, w2, rfl, hsp⟩
+  cases hl : lookup kc (readKey kc m) with
+  | none => exact newBranch
+  | some e =>
+    simp only [bind_run, keyObj]
+    split
+    · -- the entry already holds this key: refresh it, close the redundant copy
+      have hla : assocGet kc.ents (readKey kc m) = some e := by
+        unfold lookup at hl; rw [hkcm] at hl; exact hl
+      obtain ⟨ke, hke, _⟩ := hok.entKey _ _ (assocGet_mem hla)
+      have hne : e.obj ≠ k := by
+        intro heq
+        have h1 : 0 < entCount T.dead w.caches e.obj :=
+          entCount_pos_iff.2 ⟨c, kc, hkc, hd, List.mem_map.2 ⟨(_, e), assocGet_mem hla, rfl⟩⟩
+        have h2 := ((hi.acc k _ hk).1 rfl).2.2
+        unfold cntOf at h2
+        have := hcount_nonneg H k
+        rw [heq] at h1
+        omega
+      simp only [bind_run, modify_run, get_run]
+      -- 1. revoked flag of the cached key
+      have hi1 : RI T (.obj k) H { w with keys := setAt w.keys e.obj fun x => { x with revoked := (w.keys.getD k default).revoked } } := by
+        have hacc := hi.acc e.obj ke hke
+        exact RIc.updKey hi e.obj (fun x => { x with revoked := (w.keys.getD k default).revoked }) ke hke (fun x => ⟨rfl, rfl, rfl⟩) ⟨rfl, fun _ h => h, hi.rawObj⟩
+          (fun o' _ => ⟨rfl, Iff.rfl⟩) (fun _ => trivial) hacc rfl rfl rfl
+      -- 2. close the freshly loaded copy
+      have hcl := keyCloseRaw_spec T (hcount H) k _ hi1
+      have hfr := keyCloseRaw_frame k { w with keys := setAt w.keys e.obj fun x => { x with revoked := (w.keys.getD k default).revoked } }
+      have hext := (keyCloseRaw_ext k { w with keys := setAt w.keys e.obj fun x => { x with revoked := (w.keys.getD k default).revoked } })
+      cases hr : keyCloseRaw k { w with keys := setAt w.keys e.obj fun x => { x with revoked := (w.keys.getD k default).revoked } } with
+      | mk r w2 =>
+        rw [hr] at hcl hfr hext
+        simp only at hfr
+        rw [hfr.1] at hcl
+        simp only [hfr.1]
+        have hke1 : (setAt w.keys e.obj fun x => { x with revoked := (w.keys.getD k default).revoked })[e.obj]? =
+            some { ke with revoked := (w.keys.getD k default).revoked } := by
+          rw [setAt_getElem?]; simp [hke]
+        obtain ⟨ke2, hke2, hke2c, _⟩ := hext.keys _ _ hke1
+        have hkc2 : w2.caches[c]? = some kc := by rw [hfr.2]; exact hkc
+        -- 3. write the refreshed entry back under the same key
+        have hsp := cacheWrite_spec T .none (hcount H) c m { loadedAt := w.now, obj := e.obj } kc ke2 hd hkcm (hcount_nonneg _)
+          (by
+            intro h0
+            have := readKey_eq_writeKey hok hla hke
+            have hc' := (hok.entKey _ _ (assocGet_mem hla))
+            obtain ⟨k', hk', hc'⟩ := hc'
+            rw [hke] at hk'; cases hk'
+            unfold readKey at hc'; simp only [h0, if_false] at hc'
+            rw [hke2c]; exact hc')
+          w2 ⟨hcl, hkc2, hke2⟩
+        cases hr2 : cacheWrite c m { loadedAt := w.now, obj := e.obj } w2 with
+        | mk r2 w3 =>
+          rw [hr2] at hsp
+          cases r2 with
+          | error e => exact hsp.elim
+          | ok u =>
+            obtain ⟨hi3, kc', hkc', hget⟩ := hsp
+            refine ⟨e.obj, w3, rfl, ?_, ?_⟩
+            · have hrw : writeKey m ke2.created = readKey kc m := by
+                rw [hke2c]; exact (readKey_eq_writeKey hok hla hke).symm
+              have hwh : writeHolds (hcount H) kc (writeKey m ke2.created) { loadedAt := w.now, obj := e.obj } = hcount H := by
+                unfold writeHolds
+                rw [hrw, hla]
+                simp
+              rw [hwh] at hi3
+              exact hi3
+            · exact entCount_pos_iff.2 ⟨c, kc', hkc', hd, List.mem_map.2 ⟨(_, _), assocGet_mem hget, rfl⟩⟩
+    · exact newBranch
+
+theorem Spec.pure_pre {α : Type} {P : World → Prop} {φ : Prop} {x : M α} {Q : α → World → Prop} {E : World → Prop}
+    (h : φ → Spec P x Q E) : Spec (fun w => P w ∧ φ) x Q E := fun w hw => h hw.2 w hw.1
+
+theorem getCache_mode_spec (T : CTab) (raw : Raw) (H : List Nat) (c : Nat) :
+    Spec (RI T raw H) (getCache c) (fun kc w => RI T raw H w ∧ kc.mode = T.mode c) (fun _ => False) := by
+  intro w hi
+  exact ⟨hi, hi.mode c⟩
+
+/-- a hit of `getFresh` in an open cache is an object the cache holds a reference on. -/
+theorem getFresh_spec (T : CTab) (raw : Raw) (H : List Nat) (c : Nat) (m : KeyMeta) (i : Int) (hd : T.dead c = false) :
+    Spec (RI T raw H) (getFresh c m i)
+      (fun r w => RI T raw H w ∧ ∀ o, r.1 = some o → 0 < entCount T.dead w.caches o) (fun _ => False) := by
+  apply Spec.intro_ok
+  intro w hi
+  have hnb : (w.caches.getD c default).mode ≠ .bounded := by rw [hi.mode c]; exact hi.nb c
+  obtain ⟨r, hr, hob⟩ := getFresh_run w c m i hnb
+  refine ⟨r, w, hr, hi, ?_⟩
+  intro o ho
+  obtain ⟨e, hl, he⟩ := hob o r.2 (by cases r; simp_all)
+  unfold lookup at hl
+  cases hc : w.caches[c]? with
+  | none =>
+    simp only [List.getD_eq_getElem?_getD, hc, Option.getD_none] at hl
+    cases hl
+  | some kc =>
+    simp only [List.getD_eq_getElem?_getD, hc, Option.getD_some] at hl
+    have hla : assocGet kc.ents (readKey kc m) = some e := by
+      cases hm : kc.mode <;> simp only [hm] at hl
+      · cases hl
+      · exact hl
+      · exact hl
+    exact entCount_pos_iff.2 ⟨c, kc, hc, hd, List.mem_map.2 ⟨(_, e), assocGet_mem hla, he⟩⟩
+
+theorem LoaderOK.plain {T : CTab} {loader : KeyMeta → M Nat} {m : KeyMeta} (hl : LoaderOK T loader m) (H : List Nat) :
+    Spec (RI T .none H) (loader m) (fun o => RI T (.obj o) H) (RI T .none H) :=
+  (hl H).weaken (fun _ h => h) (fun _ _ h => h.1) (fun _ h => h)
+
+theorem keyWrap_plain (T : CTab) (H : List Nat) (o : Nat) :
+    Spec (RI T (.obj o) H) (keyWrap o) (fun _ => RI T .none (o :: H)) (fun _ => False) :=
+  (keyWrap_spec T H o).weaken (fun _ h => h) (fun _ _ h => h.1) (fun _ h => h)
+
+theorem Spec.with_pre {α : Type} {P : World → Prop} {x : M α} {Q : α → World → Prop} {E : World → Prop}
+    (h : (∃ w, P w) → Spec P x Q E) : Spec P x Q E := fun w hw => h ⟨w, hw⟩ w hw
+
+theorem tracked_spec (T : CTab) (H : List Nat) (k : Nat) :
+    Spec (fun w => RI T .none H w ∧ 0 < entCount T.dead w.caches k)
+      (keyIncr k >>= fun _ => (pure k : M Nat)) (fun o => RI T .none (o :: H)) (RI T .none H) :=
+  Spec.bind (keyIncr_spec T .none H k) (fun _ h => h.elim) fun _ => Spec.pure _ fun _ h => h
+
+/-- `keyCacher.GetOrLoad`: on success the caller holds one reference on the returned key; on
+failure nothing is held. -/
+theorem getOrLoad_spec (T : CTab) (H : List Nat) (c : Nat) (m : KeyMeta) (i : Int) (loader : KeyMeta → M Nat)
+    (hd : T.dead c = false) (hl : LoaderOK T loader m) :
+    Spec (RI T .none H) (getOrLoad c m i loader) (fun o => RI T .none (o :: H)) (RI T .none H) := by
+  refine Spec.with_pre fun ⟨w0, hw0⟩ => ?_
+  have hnbT := hw0.nb c
+  unfold getOrLoad
+  refine Spec.bind (getCache_mode_spec T .none H c) (fun _ h => h.elim) ?_
+  intro kc
+  apply Spec.pure_pre
+  intro hmode
+  split
+  · -- neverCache: load, wrap, hand the only reference to the caller
+    refine Spec.bind (hl.plain H) (fun _ h => h) fun k => ?_
+    exact Spec.bind (keyWrap_plain T H k) (fun _ h => h.elim) fun _ => Spec.pure _ fun _ h => h
+  · rename_i hnever
+    have hsimple : T.mode c = .simple := by
+      rw [hmode] at hnever
+      cases hm : T.mode c with
+      | never => exact absurd hm hnever
+      | simple => rfl
+      | bounded => exact absurd hm hnbT
+    have slow : Spec (RI T .none H) (cacheLoad c m loader >>= fun k => keyIncr k >>= fun _ => (pure k : M Nat))
+        (fun o => RI T .none (o :: H)) (RI T .none H) :=
+      Spec.bind (cacheLoad_spec T H c m loader hd hsimple hl) (fun _ h => h) (tracked_spec T H)
+    refine Spec.bind (getFresh_spec T .none H c m i hd) (fun _ h => h.elim) fun r => ?_
+    split
+    · exact (tracked_spec T H _).weaken (fun w hw => ⟨hw.1, hw.2 _ rfl⟩) (fun _ _ h => h) (fun _ h => h)
+    · refine Spec.bind ((getFresh_spec T .none H c m i hd).weaken (fun _ h => h.1) (fun _ _ h => h) (fun _ h => h)) (fun _ h => h.elim) fun r => ?_
+      split
+      · exact (tracked_spec T H _).weaken (fun w hw => ⟨hw.1, hw.2 _ rfl⟩) (fun _ _ h => h) (fun _ h => h)
+      · exact slow.weaken (fun _ h => h.1) (fun _ _ h => h) (fun _ h => h)
+
+/-- the part of `GetOrLoadLatest` after the cache lookup / load: validity check and reload. -/
+theorem getOrLoadLatest_rest (T : CTab) (H : List Nat) (c : Nat) (kid : KeyId) (ea : Int) (loader : KeyMeta → M Nat)
+    (hd : T.dead c = false) (hsimple : T.mode c = .simple) (hl : LoaderOK T loader ⟨kid, 0⟩) (key : Nat) :
+    Spec (fun w => RI T .none H w ∧ 0 < entCount T.dead w.caches key)
+      (do
+        let ko ← keyObj key
+        let w ← get
+        if isKeyInvalid ko w.now ea = true then do
+            let reloaded ← loader { kid := kid, created := 0 }
+            let ro ← keyObj reloaded
+            let w ← get
+            keyWrap reloaded
+            cacheWrite c { kid := kid, created := ro.created } { loadedAt := w.now, obj := reloaded }
+            keyIncr reloaded
+            pure reloaded
+          else do
+            keyIncr key
+            pure key : M Nat)
+      (fun o => RI T .none (o :: H)) (RI T .none H) := by
+  refine Spec.bind (R := fun _ w => RI T .none H w ∧ 0 < entCount T.dead w.caches key) (E₁ := fun _ => False)
+    (fun w hw => hw) (fun _ h => h.elim) fun ko => ?_
+  refine Spec.bind (R := fun _ w => RI T .none H w ∧ 0 < entCount T.dead w.caches key) (E₁ := fun _ => False)
+    (fun w hw => hw) (fun _ h => h.elim) fun wnow => ?_
+  split
+  · -- reload
+    refine Spec.bind ((hl H).weaken (fun _ h => h.1) (fun _ _ h => h.1) (fun _ h => h)) (fun _ h => h) fun reloaded => ?_
+    refine Spec.bind (R := fun ro w => RI T (.obj reloaded) H w ∧ ro = w.keys.getD reloaded default) (E₁ := fun _ => False)
+      (fun w hw => ⟨hw, rfl⟩) (fun _ h => h.elim) fun ro => ?_
+    refine Spec.bind (R := fun _ w => RI T (.obj reloaded) H w ∧ ro = w.keys.getD reloaded default) (E₁ := fun _ => False)
+      (fun w hw => hw) (fun _ h => h.elim) fun w2 => ?_
+    have hww := wrapWrite_spec T H c ⟨kid, ro.created⟩ reloaded w2.now hd hsimple
+    have : Spec (fun w => RI T (.obj reloaded) H w ∧ ro = w.keys.getD reloaded default)
+        (keyWrap reloaded >>= fun _ => cacheWrite c ⟨kid, ro.created⟩ { loadedAt := w2.now, obj := reloaded })
+        (fun _ w => RI T .none H w ∧ 0 < entCount T.dead w.caches reloaded) (fun _ => False) := by
+      refine hww.weaken ?_ (fun _ _ h => h) (fun _ h => h)
+      rintro w ⟨hi, hro⟩
+      refine ⟨hi, fun _ => ?_⟩
+      have hlt := hi.rawObj reloaded rfl
+      refine ⟨_, List.getElem?_eq_getElem hlt, ?_⟩
+      rw [hro, getD_eq_of_getElem? (List.getElem?_eq_getElem hlt)]
+    intro w hw
+    have h1 := this w hw
+    simp only [bind_run] at h1 ⊢
+    cases hr : keyWrap reloaded w with
+    | mk r1 w1 =>
+      rw [hr] at h1
+      cases r1 with
+      | error e => exact h1.elim
+      | ok u =>
+        simp only at h1 ⊢
+        cases hr2 : cacheWrite c ⟨kid, ro.created⟩ { loadedAt := w2.now, obj := reloaded } w1 with
+        | mk r2 w3 =>
+          rw [hr2] at h1
+          cases r2 with
+          | error e => exact h1.elim
+          | ok u2 =>
+            simp only at h1 ⊢
+            have := tracked_spec T H reloaded w3 h1
+            simp only [bind_run] at this
+            exact this
+  · exact tracked_spec T H key
+
+/-- `keyCacher.GetOrLoadLatest`, including the reload of an invalid (revoked / expired) latest key. -/
+theorem getOrLoadLatest_spec (T : CTab) (H : List Nat) (c : Nat) (kid : KeyId) (i ea : Int) (loader : KeyMeta → M Nat)
+    (hd : T.dead c = false) (hl : LoaderOK T loader ⟨kid, 0⟩) :
+    Spec (RI T .none H) (getOrLoadLatest c kid i ea loader) (fun o => RI T .none (o :: H)) (RI T .none H) := by
+  refine Spec.with_pre fun ⟨w0, hw0⟩ => ?_
+  have hnbT := hw0.nb c
+  unfold getOrLoadLatest
+  refine Spec.bind (getCache_mode_spec T .none H c) (fun _ h => h.elim) ?_
+  intro kc
+  apply Spec.pure_pre
+  intro hmode
+  split
+  · refine Spec.bind (hl.plain H) (fun _ h => h) fun k => ?_
+    exact Spec.bind (keyWrap_plain T H k) (fun _ h => h.elim) fun _ => Spec.pure _ fun _ h => h
+  · rename_i hnever
+    have hsimple : T.mode c = .simple := by
+      rw [hmode] at hnever
+      cases hm : T.mode c with
+      | never => exact absurd hm hnever
+      | simple => rfl
+      | bounded => exact absurd hm hnbT
+    refine Spec.bind (getFresh_spec T .none H c _ i hd) (fun _ h => h.elim) fun r => ?_
+    split
+    · dsimp only
+      exact Spec.bind (R := fun key w => RI T .none H w ∧ 0 < entCount T.dead w.caches key) (E₁ := RI T .none H)
+        (Spec.pure _ fun w hw => ⟨hw.1, hw.2 _ rfl⟩) (fun _ h => h) (getOrLoadLatest_rest T H c kid ea loader hd hsimple hl)
+    · dsimp only
+      exact Spec.bind (R := fun key w => RI T .none H w ∧ 0 < entCount T.dead w.caches key) (E₁ := RI T .none H)
+        ((cacheLoad_spec T H c _ loader hd hsimple hl).weaken (fun _ h => h.1) (fun _ _ h => h) (fun _ h => h)) (fun _ h => h)
+        (getOrLoadLatest_rest T H c kid ea loader hd hsimple hl)
+
+/-! ### closing a cache -/
+
+theorem releaseAll_spec (T : CTab) (raw : Raw) (H : List Nat) (l : List Nat) :
+    Spec (RI T raw (l ++ H)) (releaseAll l) (fun _ => RI T raw H) (fun _ => False) := by
+  induction l with
+  | nil => exact Spec.pure _ fun _ h => h
+  | cons v rest ih =>
+    unfold releaseAll
+    exact Spec.bind (keyRelease_spec T raw (rest ++ H) v) (fun _ h => h) fun _ => ih
+
+/-- the cache table after `Close` of cache `c`. -/
+def CTab.kill (T : CTab) (c : Nat) : CTab := { T with dead := fun j => j == c || T.dead j }
+
+theorem hcount_append (l H : List Nat) (o : Nat) : hcount (l ++ H) o = hcount H o + ((l.count o : Nat) : Int) := by
+  unfold hcount; rw [List.count_append]; omega
+
+/-- `keyCache.Close` / `neverCache.Close` of an open cache: every entry's reference is released
+(closing the keys nobody else holds), and the cache is dead from then on. -/
+theorem cacheClose_spec (T : CTab) (H : List Nat) (c : Nat) (hd : T.dead c = false) :
+    Spec (RI T .none H) (cacheClose c) (fun _ => RI (T.kill c) .none H) (fun _ => False) := by
+  unfold cacheClose
+  intro w hi
+  have hnb := hi.nb c
+  have hmode := hi.mode c
+  simp only [bind_run, getCache]
+  cases hc : w.caches[c]? with
+  | none =>
+    have hgd : w.caches.getD c default = default := by simp [List.getD_eq_getElem?_getD, hc]
+    rw [hgd]
+    show RI (T.kill c) .none H w
+    refine RIc.congr_T hi ?_ (fun _ => rfl) rfl
+    intro c' hc'
+    have : c' ≠ c := by
+      intro e; subst e
+      rw [List.getElem?_eq_none_iff] at hc; omega
+    simp [CTab.kill, this]
+  | some kc =>
+    have hgd : w.caches.getD c default = kc := getD_eq_of_getElem? hc
+    rw [hgd] at hmode ⊢
+    have hk := RIc.kill hi c kc hc hd
+    have hk' : RI (T.kill c) .none (objsOf kc ++ H) w := by
+      refine RIc.congr_h hk ?_
+      intro o; rw [hcount_append]
+    cases hm : kc.mode with
+    | never =>
+      simp only []
+      have hnev := (hi.ents c kc hc hd).nev hm
+      show RI (T.kill c) .none H w
+      have : objsOf kc = [] := by unfold objsOf; rw [hnev]; rfl
+      rw [this] at hk'; exact hk'
+    | simple =>
+      simp only []
+      exact releaseAll_spec (T.kill c) .none H (objsOf kc) w hk'
+    | bounded => rw [hm] at hmode; exact absurd hmode.symm hnb
+
 end AsherahVerif.Env
